@@ -48,7 +48,9 @@ def run_one(sid):
         tier = meta.get("tier", "quick")
         q = subprocess.run([os.path.join(HERE, "check"), prop, tier], capture_output=True, text=True, env=env, cwd=HERE)
         lines = [l for l in q.stdout.splitlines() if l.startswith("VIOLATION")]
-        return {"id": sid, "property": prop, "applied": True, "applied_to": based_on, "exit": q.returncode, "caught": q.returncode == 1 and bool(lines),
+        head = subprocess.run(["git", "-C", HERE, "rev-parse", "--short", "HEAD"], capture_output=True, text=True).stdout.strip()
+        dirty = bool(subprocess.run(["git", "-C", HERE, "status", "--porcelain", "checks", "simkit", "gen"], capture_output=True, text=True).stdout.strip())
+        return {"id": sid, "property": prop, "applied": True, "applied_to": based_on, "verif_commit": head + ("+dirty" if dirty else ""), "exit": q.returncode, "caught": q.returncode == 1 and bool(lines),
                 "violations": [l[:300] for l in lines[:4]], "wall_s": round(time.time() - t, 1),
                 "stderr_tail": q.stderr[-300:] if q.returncode not in (0, 1) else ""}
     finally:
